@@ -13,6 +13,11 @@
 //!
 //! Model part: `Dmn.MB` (decision-table builder index pairing, fuel-bounded traversals) through
 //! the driver, compared with the implementation on generated table shapes and requirement graphs.
+//!
+//! XML layer (`c12xml.rs`): `dmntk_model::parse` against `Dmn.Xml.parse`, the Lean model of
+//! `model/src/model/parser.rs`, on every base text and on a seeded sample of the faulted texts; the
+//! generated tables and graphs also go text → tree → `Dmn.Xml.parse` → `toTableS` / `toDefs` → builder
+//! model, so that the abstraction functions between the two models are tied as well.
 
 use crate::model::Model;
 use crate::report::{Kind, Report};
@@ -26,6 +31,9 @@ use dmntk_feel::Name;
 use dmntk_model_evaluator::ModelEvaluator;
 use serde_json::{json, Value as J};
 use std::sync::Mutex;
+
+#[path = "c12xml.rs"]
+pub mod xml;
 
 // ------------------------------------------------------------------------------------------
 // a small XML scanner (element / attribute / text positions in the original text)
@@ -1211,6 +1219,43 @@ pub fn run(cfg: &Cfg) -> Report {
   }
   rep.extra.insert("single_faults_enumerated".into(), json!(total_faults));
 
+  // ---- XML layer: parser.rs against its Lean model, in-process (a panic is an observation; texts that
+  // abort the process are the business of the child runs below)
+  {
+    let mut xrng = Rng::new(cfg.seed ^ 0x786d_6c31_32);
+    let mut cases: Vec<(String, String)> = vec![];
+    for w in &works {
+      let (bname, btext) = &bases[w.base];
+      cases.push((format!("{}|none|base", bname), btext.clone()));
+      // a sample of the faulted texts of this base: at most `per_base`, small texts preferred
+      let per_base = if thorough { 200 } else if w.base < n_corpus { 20 } else { 30 };
+      let n = w.cases.len();
+      if n > 1 && btext.len() < 200_000 {
+        let mut picked = std::collections::BTreeSet::new();
+        for _ in 0..per_base.min(n - 1) {
+          picked.insert(1 + xrng.below((n - 1) as u64) as usize);
+        }
+        for id in picked {
+          let (kind, at) = &w.meta[id];
+          cases.push((format!("{}|{}|{}", bname, kind, at), apply(btext, &w.cases[id].1)));
+        }
+      }
+    }
+    // generated documents over the vocabulary of parser.rs (order, multiplicity, odd attribute values)
+    let n_gen_docs = if thorough { 20_000 } else { 2_500 };
+    for k in 0..n_gen_docs {
+      cases.push((format!("generated:document#{}", k), xml::gen_document(&mut xrng)));
+    }
+    rep.extra.insert("xml_layer_generated_documents".into(), json!(n_gen_docs));
+    let t0 = std::time::Instant::now();
+    let mut model = Model::start(&cfg.driver);
+    xml_layer(&cases, &mut model, &mut rep);
+    rep.extra.insert("xml_layer_cases".into(), json!(cases.len()));
+    rep.extra.insert("xml_layer_bytes".into(), json!(cases.iter().map(|c| c.1.len()).sum::<usize>()));
+    rep.extra.insert("xml_layer_seconds".into(), json!(t0.elapsed().as_secs()));
+    rep.model_requests += model.requests;
+  }
+
   // run: one thread per core, each running batches in child processes
   let results: Mutex<Vec<(usize, Vec<(usize, Obs)>)>> = Mutex::new(vec![]);
   let next = std::sync::atomic::AtomicUsize::new(0);
@@ -1255,9 +1300,77 @@ pub fn run(cfg: &Cfg) -> Report {
   }
   let mut model = Model::start(&cfg.driver);
   shapes(cfg, &mut rng, &mut model, &mut rep);
-  rep.model_requests = model.requests;
+  rep.model_requests += model.requests;
   rep.exhaustive = thorough;
   rep
+}
+
+/// `dmntk_model::parse(text)` against `(c12 parse <uri table> <tree>)`.
+fn xml_layer(cases: &[(String, String)], model: &mut Model, rep: &mut Report) {
+  let mut reqs = vec![];
+  let mut idx = vec![];
+  for (k, (key, text)) in cases.iter().enumerate() {
+    rep.case(&format!("xml|{}", key), true);
+    match xml::tree_of(text) {
+      None => {
+        // roxmltree rejects the text (not modelled): the implementation must report exactly that
+        let o = xml::observe(text);
+        rep.hit("xml layer → xml-error");
+        if o != "xml-error" {
+          let kind = if o == "(panic)" { Kind::ImplVsSpec } else { Kind::ImplVsModel };
+          rep.disagree(kind, "xml", "XML layer: a text roxmltree rejects is not reported as XmlParsingModelFailed", &format!("{} | {}", key, text), &o, "xml-error");
+        }
+      }
+      Some((table, tree)) => {
+        reqs.push(format!("(c12 parse {} {})", table, tree));
+        idx.push(k);
+      }
+    }
+  }
+  let answers = model.ask_batch(&reqs);
+  for (k, ans) in idx.iter().zip(answers.iter()) {
+    let (key, text) = &cases[*k];
+    let o = xml::observe(text);
+    let bucket = if o.starts_with("(ok") {
+      "ok".to_string()
+    } else if o.starts_with("(err ") {
+      o.trim_start_matches("(err ").split(|c| c == ' ' || c == ')').next().unwrap_or("").to_string()
+    } else {
+      o.clone()
+    };
+    rep.hit(&format!("xml layer → {}", bucket));
+    let shown = if text.len() < 6000 { text.clone() } else { format!("(text of {} bytes)", text.len()) };
+    let cut = |s: &str| -> String {
+      if s.len() < 3000 {
+        s.to_string()
+      } else {
+        // the first difference is what matters
+        let p = o.bytes().zip(ans.bytes()).position(|(a, b)| a != b).unwrap_or(0);
+        let from = p.saturating_sub(200);
+        let to = (p + 400).min(s.len());
+        let mut from = from.min(s.len());
+        while !s.is_char_boundary(from) {
+          from -= 1;
+        }
+        let mut to = to;
+        while !s.is_char_boundary(to) {
+          to -= 1;
+        }
+        format!("… {} …", &s[from..to])
+      }
+    };
+    if o == "(panic)" {
+      rep.disagree(Kind::ImplVsSpec, "xml", "XML layer: dmntk_model::parse panics", &format!("{} | {}", key, shown), &o, "a model, or an error");
+    }
+    if &o != ans {
+      let sig = if o.starts_with("(ok") && ans.starts_with("(ok") {
+        "XML layer: parsed definitions differ from the parser model".to_string()
+      } else {
+        format!("XML layer: outcome differs from the parser model ({} vs {})", bucket, ans.trim_start_matches('(').split(|c| c == ' ' || c == ')').take(2).collect::<Vec<_>>().join(" "))
+      };
+      rep.disagree(Kind::ImplVsModel, "xml", &sig, &format!("{} | {}", key, shown), &cut(&o), &cut(ans));
+    }
+  }
 }
 
 struct G {
@@ -1543,6 +1656,8 @@ fn shapes(cfg: &Cfg, rng: &mut Rng, model: &mut Model, rep: &mut Report) {
   let mut reqs = vec![];
   let mut obs = vec![];
   let mut inputs = vec![];
+  let mut xml_dt_reqs = vec![];
+  let mut xml_dt_idx = vec![];
   for k in 0..n_dt {
     let (hp, agg) = policies[k % policies.len()];
     let n_in = rng.below(4) as usize;
@@ -1609,11 +1724,38 @@ fn shapes(cfg: &Cfg, rng: &mut Rng, model: &mut Model, rep: &mut Report) {
         }
       },
     };
+    // the same text through the parser model and `toTableS` (every fourth table)
+    if k % 4 == 0 {
+      if let Some((table, tree)) = xml::tree_of(&x) {
+        xml_dt_reqs.push(format!("(c12 parse-dt {} {})", table, tree));
+        xml_dt_idx.push(reqs.len());
+      }
+    }
     reqs.push(req);
     obs.push(o);
     inputs.push(x);
   }
   let answers = model.ask_batch(&reqs);
+  let xml_dt_answers = model.ask_batch(&xml_dt_reqs);
+  for (i, ans) in xml_dt_idx.iter().zip(xml_dt_answers.iter()) {
+    let o = &obs[*i];
+    rep.case(&format!("xml-dt|{}", reqs[*i]), true);
+    let class = if o.starts_with("(ok") {
+      "ok"
+    } else if o.starts_with("(error") {
+      "error"
+    } else if o.starts_with("((panic-parse") {
+      "panic-parse"
+    } else if o.starts_with("((panic") {
+      "(panic"
+    } else {
+      "parse-error"
+    };
+    rep.hit(&format!("xml table shape → {}", class.trim_start_matches('(')));
+    if !(ans == class || (class == "(panic" && ans.starts_with("(panic"))) {
+      rep.disagree(Kind::ImplVsModel, "xml-dt", "XML layer: text → parser model → table shape → builder model differs from the implementation's build outcome", &format!("{} | {}", reqs[*i], inputs[*i]), o, ans);
+    }
+  }
   for ((req, o), (ans, x)) in reqs.iter().zip(obs.iter()).zip(answers.iter().zip(inputs.iter())) {
     rep.case(req, true);
     let stage = if o.starts_with("((panic") {
@@ -1646,6 +1788,34 @@ fn shapes(cfg: &Cfg, rng: &mut Rng, model: &mut Model, rep: &mut Report) {
   }
   let greqs: Vec<String> = graphs.iter().map(|g| g.req.clone()).collect();
   let ganswers = model.ask_batch(&greqs);
+  // the same graphs as XML text through the parser model and `toDefs`: the answers must be those of the
+  // generator's own abstract graph (identifiers aside: `toDefs` numbers them by position)
+  {
+    let xreqs: Vec<String> = graphs
+      .iter()
+      .map(|g| match xml::tree_of(&g.xml) {
+        Some((table, tree)) => format!("(c12 parse-graph {} {})", table, tree),
+        None => "(c12 parse-graph () (p))".to_string(),
+      })
+      .collect();
+    let xanswers = model.ask_batch(&xreqs);
+    for ((g, direct), via_xml) in graphs.iter().zip(ganswers.iter()).zip(xanswers.iter()) {
+      rep.case(&format!("xml-graph|{}", g.req), true);
+      let stripped = match Sexp::parse(direct).as_ref().and_then(|p| p.as_list()) {
+        Some([b, d, bk, sv]) => {
+          let res = |grp: &Sexp| -> String {
+            grp.as_list().map(|l| l.iter().filter_map(|e| e.as_list().and_then(|p| p.get(1)).map(|r| r.to_string())).collect::<Vec<_>>().join(" ")).unwrap_or_default()
+          };
+          format!("({} ({}) ({}) ({}))", b, res(d), res(bk), res(sv))
+        }
+        _ => direct.clone(),
+      };
+      rep.hit(&format!("xml graph → {}", via_xml.trim_start_matches('(').split(' ').next().unwrap_or("")));
+      if &stripped != via_xml {
+        rep.disagree(Kind::ImplVsModel, "xml-graph", "XML layer: text → parser model → requirement graph differs from the generator's graph", &format!("{} | {}", g.req, g.xml), &stripped, via_xml);
+      }
+    }
+  }
   // implementation: one child batch per graph; case 0 builds only, case k evaluates invocable k
   let n_threads = std::thread::available_parallelism().map(|n| n.get()).unwrap_or(4).min(16);
   let results: Mutex<Vec<(usize, Vec<(usize, Obs)>)>> = Mutex::new(vec![]);
